@@ -178,8 +178,6 @@ func ReadOptions(r *packet.Reader) Options {
 			return options
 		}
 
-		temp = temp[:0]
-
 		r.ReadBytes(temp)
 		if e := r.Error(); e != nil {
 			if errors.Is(e, io.EOF) {
